@@ -64,7 +64,7 @@ RXV_SUBCOMMAND(c01) {
 	ip::setGarbageSeed(args.seed * 13 + 5);
 	ip::setHugePages(1); // LARGE_PAGES requests succeed with ordinary pages (there are no huge pages here)
 	const randomx_flags hw = api::getFlags();
-	for (const char* f : { "triples_compared", "configs_per_triple_min", "light_vms", "fast_vms", "caches", "datasets_compiled_init", "batch_digests", "v2_switched_with_setFlagV2", "v2_created_with_flag", "secure_without_jit", "large_page_vms", "dataset_items_checked_against_light_mode", "fast_sweep_triples" }) R.floorKey(f);
+	for (const char* f : { "triples_compared", "configs_per_triple_min", "light_vms", "fast_vms", "caches", "datasets_compiled_init", "batch_digests", "v2_switched_with_setFlagV2", "v2_created_with_flag", "secure_without_jit", "large_page_vms", "dataset_items_checked_against_light_mode", "fast_sweep_triples", "light_sweep_digests" }) R.floorKey(f);
 	if (thorough) R.floorKey("datasets_interpreter_init");
 
 	for (uint64_t ki = 0; ki < nKeys; ++ki) {
@@ -220,6 +220,58 @@ RXV_SUBCOMMAND(c01) {
 				R.nontrivial(fnv1a(sin[k].data(), sin[k].size(), fnv1a(key.data(), key.size()) ^ v2 ^ 0x5eeb));
 			}
 			R.count("fast_sweep_vms", fv.size());
+		}
+		// ---- light-mode JIT sweep: the generated light-mode dataset read depends on per-program configuration values (dataset offset)
+		// that single inputs hit with probability far below 1 %: many inputs through the four light JIT classes, each compared with
+		// the digest of one fast-mode VM (milliseconds per hash), work spread over all threads
+		{
+			const uint64_t nLight = args.num("lightsweep", thorough ? 6000 : 768);
+			std::vector<std::vector<uint8_t>> lin;
+			for (uint64_t i = 0; i < nLight; ++i) lin.push_back(cases::makeInput(rng, 100 + i));
+			std::vector<std::array<uint8_t, 32>> ref[2]; ref[0].resize(lin.size()); ref[1].resize(lin.size());
+			R.setCase("{\"key\":\"" + keyHex + "\",\"stage\":\"light-mode sweep: reference\"}");
+			{
+				const int rf = RANDOMX_FLAG_FULL_MEM | RANDOMX_FLAG_JIT | ((hw & RANDOMX_FLAG_HARD_AES) ? RANDOMX_FLAG_HARD_AES : 0);
+				randomx_vm* rv = api::createVm((randomx_flags)rf, nullptr, datasets[0]); if (!rv) R.harnessFail("light sweep reference vm");
+				for (int v2 = 0; v2 < 2; ++v2) {
+					{ ip::Api sc("setFlagV2"); if (v2) rv->setFlagV2(); else rv->clearFlagV2(); }
+					for (size_t k = 0; k < lin.size(); ++k) api::hash(rv, lin[k].data(), lin[k].size(), ref[v2][k].data());
+				}
+				api::destroyVm(rv);
+			}
+			std::vector<int> lcls;
+			for (int sec = 0; sec < 2; ++sec) for (int aes = 0; aes < 2; ++aes) { if (aes && !(hw & RANDOMX_FLAG_HARD_AES)) continue; lcls.push_back(RANDOMX_FLAG_JIT | (sec ? RANDOMX_FLAG_SECURE : 0) | (aes ? RANDOMX_FLAG_HARD_AES : 0)); }
+			const size_t chunk = 32, nChunks = (lin.size() + chunk - 1) / chunk;
+			std::atomic<size_t> nextItem{ 0 };
+			std::string lfail; std::atomic<uint64_t> compared{ 0 };
+			auto lworker = [&](unsigned tid) {
+				api::threadIndex() = tid;
+				for (;;) {
+					const size_t it = nextItem.fetch_add(1); if (it >= nChunks * lcls.size()) return;
+					const int cls = lcls[it % lcls.size()]; const size_t c0 = (it / lcls.size()) * chunk, c1 = std::min(lin.size(), c0 + chunk);
+					// alternate between the default and the JIT cache (interpreted vs compiled SuperscalarHash is not involved in a JIT VM, but the cache object differs)
+					randomx_vm* v = api::createVm((randomx_flags)cls, caches[(it & 1) ? jitCache : defCache].c, nullptr);
+					if (!v) { std::lock_guard<std::mutex> l(mu); lfail = "create_vm light sweep"; return; }
+					for (int v2 = 0; v2 < 2; ++v2) {
+						{ ip::Api sc("setFlagV2"); if (v2) v->setFlagV2(); else v->clearFlagV2(); }
+						for (size_t k = c0; k < c1; ++k) {
+							std::array<uint8_t, 32> d; api::hash(v, lin[k].data(), lin[k].size(), d.data());
+							if (d != ref[v2][k]) {
+								std::lock_guard<std::mutex> l(mu);
+								R.violation("C01:differential:digest:" + flagsName(cls) + "/light/sweep-vs-fast-mode-reference", "{\"key\":\"" + keyHex + "\",\"input\":\"" + hex(lin[k].data(), lin[k].size() > 200 ? 200 : lin[k].size()) + "\",\"input_len\":" + std::to_string(lin[k].size()) +
+									",\"v2\":" + std::to_string(v2) + ",\"a\":\"" + hex(ref[v2][k].data(), 32) + "\",\"b\":\"" + hex(d.data(), 32) + "\"}");
+							}
+							++compared;
+						}
+					}
+					api::destroyVm(v);
+				}
+			};
+			R.setCase("{\"key\":\"" + keyHex + "\",\"stage\":\"light-mode sweep\",\"inputs\":" + std::to_string(lin.size()) + "}");
+			{ std::vector<std::thread> th; for (unsigned t = 0; t < threads; ++t) th.emplace_back(lworker, t); for (auto& t : th) t.join(); }
+			if (!lfail.empty()) R.harnessFail(lfail);
+			R.count("light_sweep_digests", compared.load());
+			for (int v2 = 0; v2 < 2; ++v2) for (size_t k = 0; k < lin.size(); ++k) { R.evaluation(); R.nontrivial(fnv1a(lin[k].data(), lin[k].size(), fnv1a(key.data(), key.size()) ^ v2 ^ 0x11647)); }
 		}
 		{ std::string names; for (size_t i = 0; i < vms.size() && i < 80; ++i) names += (i ? "," : "") + jsonStr(vms[i].name); R.note("configuration_matrix", "[" + names + "]"); }
 		for (auto* d : datasets) api::releaseDataset(d);
